@@ -25,7 +25,8 @@ func init() {
 			"D6 both key arrays of a map ranking are sorted by this collator's own ranker before the pairwise loop; " +
 			"D7 pairwise loops return the first non-Equal element rank unchanged and a proper prefix ranks first; " +
 			"D8 every recursive rank call in a pairwise loop gets mirror-image operands (same accessor chain on first and on second, in that order)." +
-			" Also: no method of the sorter that orders map keys keeps the caller's array between two sorts; the collator writes no field but the depth counter after construction; prefix tests of the type classifier are not shadowed by an earlier shorter prefix; a pairwise loop bounded by one operand's size is preceded by an exit for the case that this operand is the longer one; the string leaf does not decode its operands into runes. Leaves are bound through the dispatch (the function the intrinsic ranker calls for a class of primitives), so generic leaves are covered.",
+			" Also: no method of the sorter that orders map keys keeps the caller's array between two sorts; the collator writes no field but the depth counter after construction; prefix tests of the type classifier are not shadowed by an earlier shorter prefix; a pairwise loop bounded by one operand's size is preceded by an exit for the case that this operand is the longer one; the string leaf does not decode its operands into runes. Leaves are bound through the dispatch (the function the intrinsic ranker calls for a class of primitives), so generic leaves are covered." +
+			" Rounds 8-9: the exchange of the operands is made at entry depth (recursive form) or its flag is honoured at every exit (in-place form); no go statement in the traversal; a mutex of the collator is released on panic paths, panics raised by same-type methods included.",
 		NotDecided: "transitivity/antisymmetry of the composed order over nested values and over the type-name ordering of mixed types; values outside the leaf domains; signed zeros in the complex leaf (== implies equal keys is assumed).",
 		Run:        runC07,
 	})
